@@ -3,6 +3,7 @@ import json
 import random
 import sys
 
+from harness import ref_text as RT
 from harness import core, gen_db as GD, gen_text as GT, impl_text as IT, observe as O, speller as SP
 from harness import parse_common as PC
 from harness.driver import Driver, DriverError
@@ -22,7 +23,8 @@ SPECIAL = [
     "Note n {\n '  '\n}", "Note n {\n ''\n}", 'Table t {\n id "a.b.c"\n}', 'Table t {\n id "a.b"\n}', 'Table t {\n id a.b\n}',
     'Table "t.u" {\n id int\n}', 'Table t {\n "a{b}" int [ref: > t."a{b}"]\n}', 'Table "a}" {\n id int\n}\nRef: "a}".id > "a}".id',
     'Table t {\n id int [default: ' + '9' * 4400 + ']\n}', 'Table t {\n id int [default: 1.' + '0' * 400 + '1]\n}',
-    'Project "a\\nb" {\n}', 'TableGroup "a\\nb" {\n}\n', 'Table "a\\nb" {\n "c\\nd" int\n}', 'Enum "e\\nf" {\n "i\\nj"\n}',
+    'Project "a\\nb" {\n}', 'TableGroup "a\\nb" {\n}\n', 'Note "a\\nb" {\n \'x\'\n}\n', 'Note "a b" {\n \'x\'\n}\n', 'Note "" {\n \'x\'\n}\n',
+    'Note "a\\tb" {\n \'x\'\n}\nNote "q\\"q" {\n \'y\'\n}\n', 'Table t {\n id int\n}\nRef "r\\nx": t.id > t.id\n', 'Table t {\n id int\n indexes {\n id [name: "i\\nx"]\n }\n}\n', 'Table "a\\nb" {\n "c\\nd" int\n}', 'Enum "e\\nf" {\n "i\\nj"\n}',
     'Table t {\n id int [default: `a\nb`]\n}', 'Table t {\n id int(' + '(' * 40 + ')' * 40 + ')\n}',
     "Table t {\n id int\n indexes {\n  (id, `x`) [name: '']\n }\n}", "Table t {\n id int [default: '']\n}",
     'Table t {\n id int [note: \'\\\'\']\n}', "Ref: a.b > c.d", "Ref: t.(a,b) > t.(c)", 'Table t {\n id int\n}\nRef: t.() > t.id',
@@ -108,7 +110,7 @@ def gen_inputs(ctx):
     base = [t for _, t in GT.corpus() if len(t) < 3000]
     for k in range(40):
         r2 = random.Random(f'{ctx.seed}:c08:{k}')
-        spec = SP.normalise_for_spelling(GD.gen_spec(r2, wild=False, max_tables=3), IT.norm_impl)
+        spec = SP.normalise_for_spelling(GD.gen_spec(r2, wild=False, max_tables=3), RT.ref_norm)
         if SP.spellable(spec):
             base.append(SP.spell(spec, r2, {'varied': True})[0])
     # wild renderings: API-built databases with odd names rendered to DBML give text with odd tokens
